@@ -140,7 +140,7 @@ def _eval_jump(case):
         for direction in ("up", "down"):
             nf_ref = nl if direction == "up" else nl + 1
             mu_ref = math.sqrt(thr2) * (0.8 if direction == "up" else 1.25)
-            sig = f"Couplings.a/jump/{scheme}/order={order[0]}/{direction}"
+            sig = f"Couplings.a/jump/{direction}/order={order[0]}"
             where = f"scheme={scheme} order={order} method={method} ratios={ratios} nl={nl} {direction} alphas={alphas}"
             try:
                 c = make_couplings(order, running, method, (mu_ref, nf_ref), alphas, 0.0075, M2, ratios, scheme)
@@ -240,7 +240,7 @@ def _eval_path(case):
             return res
         for mu2 in scales:
             for nf_to in (None, 3, 4, 5, 6):
-                sig = f"Couplings.a/path/{scheme}/order={order[0]}/{method}"
+                sig = f"Couplings.a/path/order={order[0]}"
                 where = f"scheme={scheme} order={order} method={method} ratios={ratios} ref={case['ref']} target=({mu2!r},{nf_to})"
                 try:
                     got = np.array(c.a(mu2, nf_to), dtype=float)
